@@ -4,6 +4,13 @@ A history is a list of protocol lines (see lean/Drivers/C01.lean).  Keys are mod
 to the strings 'a','b',...; values are `i:<int>` (Python int), `t:<n>` (the string 't<n>') and `n` (None);
 TTLs and time advances are ticks of 1/8 s.
 
+TTL spellings.  A TTL token is `-` (none), `<ticks>` or `<ticks>/<form>`.  The part after the slash says how the
+duration is *spelled* when it is handed to the `Cache` facade (int, float, `timedelta` - whose `days` field is
+non-zero from one day on -, duration strings such as '90s', '1d', '1d1m30s', ' 1D2H ', bare digits): see `spell`.
+It exists on the Python side only: the model line is the token without the form (`plain`), i.e. the harness
+converts the intended duration to ticks itself and never through `cashews.ttl`.  Bare backends (`facade=False`)
+take numbers only and always get the float.
+
 Purge sweeps.  With the purge task on, the real `Memory._remove_expired` runs on the virtual loop next to the
 harness task.  The harness does not look at HOW the purge is implemented: the backend under test is a
 subclass of `Memory` whose `store` attribute is a `LoggedStore` (an `OrderedDict` that reports every mutation,
@@ -18,7 +25,9 @@ that works differently is never harness trouble.  A sweep that suspends between 
 from __future__ import annotations
 
 import asyncio
+import re
 from collections import OrderedDict
+from datetime import timedelta
 
 from . import vtime
 from .vtime import CLOCK
@@ -56,8 +65,73 @@ def show_val(v) -> str:
     return f"?{type(v).__name__}:{v!r}"
 
 
+# ---- TTL spellings ---------------------------------------------------------------------------------
+# forms that can spell any whole number of ticks / only a whole number of seconds
+FORMS_ANY = ("f", "td")
+FORMS_WHOLE = ("i", "s", "ss", "sn", "s4", "sU")
+FORMS = FORMS_ANY + FORMS_WHOLE
+_FORM = re.compile(r"/[A-Za-z0-9]+")
+HOUR, DAY = 8 * 3600, 8 * 86400         # in ticks
+
+
+def dhms(seconds: int):
+    d, r = divmod(seconds, 86400)
+    h, r = divmod(r, 3600)
+    m, sec = divmod(r, 60)
+    return d, h, m, sec
+
+
+def spell(ticks: int, form: str):
+    """the duration of `ticks` eighths of a second as the Python object the caller would write.
+    A form that cannot express the value (a fraction of a second as int / string) falls back to the float."""
+    whole = ticks % 8 == 0
+    if form == "td":
+        # what `timedelta(...)` normalises to: (days, seconds, microseconds) - `.seconds` alone is NOT the duration
+        return timedelta(days=ticks // DAY, seconds=(ticks % DAY) // 8, microseconds=(ticks % 8) * 125000)
+    if form in ("", "f") or not whole:
+        return ticks / 8
+    n = ticks // 8
+    if form == "i":
+        return n
+    if form == "ss":
+        return f"{n}s"
+    if form == "sn":
+        return str(n)
+    d, h, m, sec = dhms(n)
+    if form == "s4":
+        return f"{d}d{h}h{m}m{sec}s"
+    parts = "".join(f"{x}{u}" for x, u in ((d, "d"), (h, "h"), (m, "m"), (sec, "s")) if x) or "0s"
+    if form == "s":
+        return parts
+    if form == "sU":
+        return f" {parts.upper()} "
+    raise ValueError(f"unknown ttl form {form!r}")
+
+
 def ttl_of(tok: str):
-    return None if tok == "-" else int(tok) / 8
+    if tok == "-":
+        return None
+    ticks, _, form = tok.partition("/")
+    return spell(int(ticks), form)
+
+
+def plain(line: str) -> str:
+    """the model's view of a protocol line: TTLs in ticks, spellings dropped"""
+    return _FORM.sub("", line)
+
+
+def ttl_tokens(line: str) -> list[str]:
+    w = line.split()
+    if not w:
+        return []
+    at = {"set": 3, "setmany": 1, "incr": 3, "expire": 2}.get(w[0])
+    return [w[at]] if at is not None and at < len(w) and w[at] != "-" else []
+
+
+def describe(line: str) -> str | None:
+    """how the TTL of a line reaches the facade, for replay files: e.g. `expire=datetime.timedelta(days=1, seconds=90)`"""
+    toks = ttl_tokens(line)
+    return f"ttl {toks[0]} -> {ttl_of(toks[0])!r}" if toks and "/" in toks[0] else None
 
 
 CONFIGS = {
@@ -191,9 +265,42 @@ class Runner:
         self._sweep_t = None                # ... its instant ...
         self._cmd_since_sweep = True        # ... and whether an application command ran since
         self._cmd_t = None                  # instant of the latest application command
+        self._long: dict = {}               # key -> (deadline, instant of the write) for TTLs of an hour or more
 
     def _bump(self, k: str):
         self.stats[k] = self.stats.get(k, 0) + 1
+
+    def _ttl(self, tok: str):
+        """the TTL argument of a command; bumps the spelling statistics (keys `spelling:*`, not interesting states)"""
+        if not self.cfg["facade"]:
+            return ttl_of(plain(tok))       # a bare backend takes numbers only
+        if "/" in tok:
+            ticks, _, form = tok.partition("/")
+            obj = ttl_of(tok)
+            kind = type(obj).__name__ + ("_with_days" if isinstance(obj, timedelta) and obj.days else "")
+            self._bump(f"spelling:{kind}")
+            if int(ticks) >= HOUR:
+                self._bump("spelling:an hour or more")
+            return obj
+        return ttl_of(tok)
+
+    def _note_long(self, w: list[str]):
+        """remember which keys hold a deadline an hour or more ahead right after a write (read off the store; only
+        for the interesting-state counters)"""
+        op = w[0]
+        if op in ("set", "incr", "expire"):
+            keys = [kname(int(w[1]))]
+        elif op == "setmany":
+            keys = [kname(int(kv.split("=")[0])) for kv in w[2:]]
+        else:
+            return
+        for k in keys:
+            ent = self.backend.store.get(k)
+            if ent and ent[0] is not None and ent[0] - CLOCK.t >= 3600:
+                if self._long.get(k, (None,))[0] != ent[0]:
+                    self._long[k] = (ent[0], CLOCK.t)
+            elif not (ent and ent[0] is not None and k in self._long and self._long[k][0] == ent[0]):
+                self._long.pop(k, None)
 
     # ---- observation of the store ------------------------------------------------------------------
     def _mutation(self, op, key, store):
@@ -256,8 +363,12 @@ class Runner:
                 self._bump(f"{op}{'_' + w[4] if op == 'set' else ''}_on_expired_unpurged")
             if self._at_deadline(k):
                 self._bump(f"{op}_exactly_at_deadline")
+            if k in self._long and self._expired_unpurged(k):
+                self._bump("command_at_or_after_a_deadline_of_hours_or_days")
+            elif k in self._long and self.backend.store.get(k) and CLOCK.t - self._long[k][1] >= 3600:
+                self._bump("command_an_hour_or_more_into_a_long_ttl_before_its_deadline")
         if op == "set":
-            k, v, ttl, c = kname(int(w[1])), val_of(w[2]), ttl_of(w[3]), {"a": None, "nx": False, "xx": True}[w[4]]
+            k, v, ttl, c = kname(int(w[1])), val_of(w[2]), self._ttl(w[3]), {"a": None, "nx": False, "xx": True}[w[4]]
             r = await api.set(k, v, expire=ttl, exist=c)
             return "T" if r is True else "F" if r is False else f"?{r!r}"
         if op == "setmany":
@@ -265,7 +376,7 @@ class Runner:
             for kv in w[2:]:
                 k, v = kv.split("=")
                 pairs[kname(int(k))] = val_of(v)
-            r = await api.set_many(pairs, expire=ttl_of(w[1]))
+            r = await api.set_many(pairs, expire=self._ttl(w[1]))
             return "U" if r is None else f"?{r!r}"
         if op == "get":
             return "v=" + show_val(await api.get(kname(int(w[1])), default=SENT))
@@ -277,7 +388,7 @@ class Runner:
             return "T" if r is True else "F" if r is False else f"?{r!r}"
         if op == "incr":
             try:
-                r = await api.incr(kname(int(w[1])), int(w[2]), expire=ttl_of(w[3]))
+                r = await api.incr(kname(int(w[1])), int(w[2]), expire=self._ttl(w[3]))
             except (ValueError, TypeError):
                 return "E"
             return f"n={r}" if type(r) is int else f"?{r!r}"
@@ -288,7 +399,7 @@ class Runner:
             r = await api.delete_many(*[kname(int(x)) for x in w[1:]])
             return "U" if r is None else f"?{r!r}"
         if op == "expire":
-            t = ttl_of(w[2])
+            t = self._ttl(w[2])
             r = await api.expire(kname(int(w[1])), t if t is not None else 0)
             return "U"
         if op == "getexpire":
@@ -367,7 +478,8 @@ class Runner:
                     out = await self._exec(w)
                 except Exception as exc:  # an exception class the model does not know is itself a disagreement
                     out = f"X:{type(exc).__name__}"
-                await self._rec(line, out)
+                await self._rec(plain(line), out)
+                self._note_long(w)
                 if self._sweep_t == CLOCK.t:
                     self._bump("command_at_the_instant_of_a_sweep_after_it")
                 self._cmd_since_sweep = True
@@ -412,11 +524,54 @@ PHASE_ADVS = [0, 0, 0, 8, 8, 8, 16]
 PHASE_TTLS = ["-", "1", "4", "8", "8", "8", "16", "16"]
 
 
-def gen_history(rng, nkeys: int, maxlen: int, weights: dict | None = None, advs=None, ttls=None) -> list[str]:
+# long durations (an hour ... a week; some with a seconds part, some with a fraction of a second, one just under a
+# day) and medium ones whose string spellings are composite ('1m30s'): for histories run through the facade with
+# spelled TTLs.  The virtual clock makes advancing across such deadlines free (purge task off).
+BIG_TTLS = [str(x) for x in (
+    8 * 90, 8 * 600, HOUR, 2 * HOUR + 8 * 61, 12 * HOUR, DAY - 8, DAY, DAY, DAY + 8, DAY + 8 * 90, DAY + 8 * 330, DAY + 4,
+    36 * HOUR, 2 * DAY, 2 * DAY, 2 * DAY + HOUR + 1, 3 * DAY, 7 * DAY, 30 * DAY + 8 * 5)]
+SPELL_FORMS = ["i", "f", "td", "td", "td", "s", "s", "ss", "sn", "s4", "sU"]
+
+
+def gen_history(rng, nkeys: int, maxlen: int, weights: dict | None = None, advs=None, ttls=None,
+                forms=None, bigttls=None, maxadv: int | None = None) -> list[str]:
+    """`forms`: spell every TTL in one of these forms (facade configurations only); `bigttls`: extra alphabet of long
+    TTLs - then half of the time advances aim at a pending deadline (8 ticks / 1 tick before, exactly at, 1 / 8 ticks
+    after it; the generator keeps its own account of `now` and of the deadlines it asked for), never by more than
+    `maxadv` ticks.  With all three left out the random stream is the one older replays were made from."""
     ADVS, TTLS = advs or globals()["ADVS"], ttls or globals()["TTLS"]
     n = rng.randint(1, maxlen)
     ops = []
     k = lambda: str(rng.randrange(nkeys))
+    now = 0
+    deadlines: list[int] = []
+
+    def ttl(numeric=False):
+        # `numeric`: the facade's `incr(expire: float | None)` is not a TTL-typed parameter (it is handed to the backend
+        # as it is, no `ttl_to_seconds`): numbers only
+        tok = rng.choice(bigttls) if bigttls and rng.random() < 0.4 else rng.choice(TTLS)
+        if tok != "-":
+            if int(tok) > 0:
+                deadlines.append(now + int(tok))
+            if forms:
+                ok = [f for f in forms if (int(tok) % 8 == 0 or f in FORMS_ANY) and (not numeric or f in ("i", "f"))] or ["f"]
+                tok += "/" + rng.choice(ok)
+        return tok
+
+    def adv():
+        nonlocal now
+        dt = None
+        if bigttls and rng.random() < 0.5:
+            ahead = [d for d in deadlines if d > now and (maxadv is None or d - now <= maxadv)]
+            if ahead:
+                dt = rng.choice(ahead) + rng.choice([-8, -1, 0, 0, 1, 8]) - now
+                if dt <= 0 or (maxadv is not None and dt > maxadv):
+                    dt = None
+        if dt is None:
+            dt = rng.choice(ADVS)
+        now += dt
+        return dt
+
     table = [
         ("set", 18), ("setnx", 8), ("setxx", 6), ("setmany", 5), ("get", 12), ("getmany", 5), ("exists", 5),
         ("incr", 10), ("delete", 5), ("delmany", 2), ("expire", 6), ("getexpire", 8), ("clear", 1), ("adv", 22),
@@ -427,14 +582,14 @@ def gen_history(rng, nkeys: int, maxlen: int, weights: dict | None = None, advs=
     for _ in range(n):
         op = rng.choices(names, ws)[0]
         if op == "set":
-            ops.append(f"set {k()} {rng.choice(VALS)} {rng.choice(TTLS)} a")
+            ops.append(f"set {k()} {rng.choice(VALS)} {ttl()} a")
         elif op == "setnx":
-            ops.append(f"set {k()} {rng.choice(VALS)} {rng.choice(TTLS)} nx")
+            ops.append(f"set {k()} {rng.choice(VALS)} {ttl()} nx")
         elif op == "setxx":
-            ops.append(f"set {k()} {rng.choice(VALS)} {rng.choice(TTLS)} xx")
+            ops.append(f"set {k()} {rng.choice(VALS)} {ttl()} xx")
         elif op == "setmany":
             ks = rng.sample(range(nkeys), rng.randint(1, min(3, nkeys)))
-            ops.append(f"setmany {rng.choice(TTLS)} " + " ".join(f"{x}={rng.choice(VALS)}" for x in ks))
+            ops.append(f"setmany {ttl()} " + " ".join(f"{x}={rng.choice(VALS)}" for x in ks))
         elif op == "get":
             ops.append(f"get {k()}")
         elif op == "getmany":
@@ -442,17 +597,17 @@ def gen_history(rng, nkeys: int, maxlen: int, weights: dict | None = None, advs=
         elif op == "exists":
             ops.append(f"exists {k()}")
         elif op == "incr":
-            ops.append(f"incr {k()} {rng.choice([1, 1, 1, 2, -1])} {rng.choice(TTLS)}")
+            ops.append(f"incr {k()} {rng.choice([1, 1, 1, 2, -1])} {ttl(numeric=True)}")
         elif op == "delete":
             ops.append(f"delete {k()}")
         elif op == "delmany":
             ops.append("delmany " + " ".join(k() for _ in range(rng.randint(1, 3))))
         elif op == "expire":
-            ops.append(f"expire {k()} {rng.choice(TTLS)}")
+            ops.append(f"expire {k()} {ttl()}")
         elif op == "getexpire":
             ops.append(f"getexpire {k()}")
         elif op == "clear":
             ops.append("clear")
         else:
-            ops.append(f"adv {rng.choice(ADVS)}")
+            ops.append(f"adv {adv()}")
     return ops
